@@ -82,6 +82,7 @@ class Registers:
     def __init__(self):
         self._R = {}
         self.changed_registers = [False] * 16
+        self.it_state_restored = False
         for register in RName:
             self._R[register] = 0
         self.cpsr = CPSR()
@@ -471,6 +472,7 @@ class Registers:
         if bit_at(bytemask, 1):
             if is_excp_return:
                 self.cpsr.value = set_substring(self.cpsr.value, 15, 10, substring(value, 15, 10))
+                self.it_state_restored = True
             self.cpsr.value = set_bit_at(self.cpsr.value, 9, bit_at(value, 9))
             if privileged and (self.is_secure() or self.scr.aw or have_virt_ext()):
                 self.cpsr.value = set_bit_at(self.cpsr.value, 8, bit_at(value, 8))
